@@ -1360,8 +1360,8 @@ int32 matrixResumeSession(ssl_t *ssl)
     Expiration is done on daily basis (86400 seconds)
  */
     psGetTime(&accessTime, ssl->userPtr);
-    if ((Memcmp(g_sessionTable[i].id, id,
-             (uint32) min(ssl->sessionIdLen, SSL_MAX_SESSION_ID_SIZE)) != 0) ||
+    if ((ssl->sessionIdLen != SSL_MAX_SESSION_ID_SIZE) ||
+        (Memcmp(g_sessionTable[i].id, id, SSL_MAX_SESSION_ID_SIZE) != 0) ||
         (psDiffMsecs(g_sessionTable[i].startTime,   accessTime, ssl->userPtr) >
                 SSL_SESSION_ENTRY_LIFE) || (g_sessionTable[i].majVer != psEncodeVersionMaj(GET_NGTD_VER(ssl)))
             || (g_sessionTable[i].minVer != psEncodeVersionMin(GET_NGTD_VER(ssl))))
